@@ -122,7 +122,9 @@ def step (st : St) (line : String) : St × String :=
         | .set .. | .get .. | .peek .. | .exist .. | .delete .. =>
           if (op.key?.getD 0) ≥ u then (st, "bad-op") else
           match wideStep (cfgOf kd) kd rt.idx w op with
-          | some (w', out) => (.wide kd u rt w', s!"{showOut out} | P={widePeekDump u rt w'}")
+          | some (w', out) =>
+            if out == .panic then (.wide kd u rt w', "panic")
+            else (.wide kd u rt w', s!"{showOut out} | P={widePeekDump u rt w'}")
           | none => (st, "panic")
         | _ => (st, "bad-op")
 
